@@ -126,10 +126,13 @@ UNITS.append(flow.Unit('blackbox-noh', groups=['residuals'], props=['props/C02_b
 
 
 import rmtv_jump_oracle as RJO
-UNITS.append(flow.Unit('rmtv-isothermal-shock', groups=[], props=[], oracle=RJO.oracle, always_oracle=True,
-                       note='RMTV: the isothermal shock is located on the returned fields; the states on either side conserve momentum with the mass-conserving '
-                            'shock speed and carry the same temperature, for non-default Gruneisen coefficient, gamma, g0, chi0 (no theorem: the profile comes from '
-                            'ODE integration; the conversion tail is covered by C03 rmtv_eos)'))
+import rmtv_corr as RMC
+UNITS.append(flow.Unit('rmtv-isothermal-shock', groups=['rmtv'], props=['props/C02_rmtv.v'], custom_corr=RMC.unit_corr, oracle=RJO.oracle, always_oracle=True,
+                       note='RMTV: the shock map of rmtv_1d (Kamm eq. 15) and the conversion tail, both regenerated from the source, conserve mass and momentum '
+                            'across the isothermal shock with the similarity shock speed and leave the temperature continuous, for every pre-shock state the '
+                            'integrator may deliver (theorem rmtv_shock_jump; the map is tied to the code by replacing solve_ivp with a probe and reading the '
+                            'post-shock start values the real rmtv_1d hands to the second integration); on the real solver the shock is located on the returned '
+                            'fields and the jump is evaluated with the mass-conserving speed (every run)'))
 
 
 import guderley_corr as GDC
